@@ -116,6 +116,14 @@ fn run_optional(ins: &str, iarg: Option<&str>, args: &[P]) -> String {
     let stack = Rc::new(RefCell::new(Stack::new()));
     stack.borrow_mut().extend(Cow::Borrowed("verif"));
     let mut ctx = Ctx::new(&function, stack, Cow::Owned(vec![]), None);
+    // "<name>:existing": the target variable already holds a present value before the instruction runs
+    let (iarg, existing) = match iarg {
+        Some(a) if a.ends_with(":existing") => (Some(&a[..a.len() - 9]), true),
+        other => (other, false),
+    };
+    if existing {
+        let _ = ctx.register_variable_local(iarg.unwrap().to_string(), P::Int(7));
+    }
     for a in args {
         ctx.push(a.clone());
     }
